@@ -45,6 +45,24 @@ pub fn oracle_sender_alloc(cfg: &LwCfg, _si: &ScriptInfo, tr: &Trace) -> Option<
                 }
             }
         }
+        // receiver ledger: the memory this side accounts for received packet data must belong to packets inside its
+        // receive window of which at least one fragment was handed to it
+        {
+            let mut got: std::collections::HashMap<u32, usize> = Default::default();
+            let mut ri = 0usize;
+            let rx: Vec<&Rx> = tr.rxs.iter().filter(|r| r.side == side && r.parsed).collect();
+            for o in tr.obs.iter().filter(|o| o.side == side) {
+                while ri < rx.len() && rx[ri].round <= o.round {
+                    if let Some(Frame::DataFrame(df)) = &tr.ems[rx[ri].em].frame { for dg in df.datagrams.iter() { let sz = if dg.fragment_id_last > 0 { (dg.fragment_id_last as usize + 1) * FRAG } else { dg.data.len() }; got.insert(dg.sequence_id, sz); } }
+                    ri += 1;
+                }
+                let base = o.probe.rx_packet_base;
+                let expected: usize = got.iter().filter(|(id, _)| (id.wrapping_sub(base) & 0xFFFFF) < cfg.pwin).map(|(_, sz)| *sz).sum();
+                if o.probe.rx_alloc > expected {
+                    return Some(viol("C06.rx-ledger", "C06.rx-ledger".into(), format!("side {} round {}: the receiver accounts {} bytes of receive memory, but the packets inside its window [{:x}, +{}) of which it has been handed any fragment amount to {} bytes: memory is still held for packets the window has passed", side, o.round, o.probe.rx_alloc, base, cfg.pwin, expected)));
+                }
+            }
+        }
         for o in tr.obs.iter().filter(|o| o.side == side) {
             if o.probe.rx_dud_count != 0 {
                 return Some(viol("C06.dud", "C06.dud".into(), format!("side {} round {}: the receiver discarded {} packet(s) for lack of receive memory although the peer is a uflow sender", side, o.round, o.probe.rx_dud_count)));
@@ -194,6 +212,8 @@ pub fn build(quick: bool) -> PropRun {
         ("alloc-1-fragment", (0..5).map(|i| send(0, 0, 0, MODES[i % 4], [1448, 700, 748, 1, 1447][i])).collect(), LwCfg { pwin: 8, fwin: 8, rx_alloc: [1, 1], ..LwCfg::small() }),
         ("alloc-exact-fit", vec![send(0, 0, 0, Reliable, 4344), send(0, 0, 1, Persistent, 10), send(1, 0, 0, Unreliable, 1448), send(1, 0, 1, Reliable, 2896)], LwCfg { pwin: 4, fwin: 8, rx_alloc: [4344, 4344], ..LwCfg::small() }),
         ("window-4096-many-small", (0..40).map(|i| send(i / 20, 0, (i % 3) as u8, MODES[i % 3], 10 + i)).collect(), LwCfg { pwin: 4096, fwin: 4096, rx_alloc: [200, 200], ..LwCfg::small() }),
+        ("partial-then-idle-then-full", vec![send(0, 0, 0, Unreliable, 3000), send(0, 0, 1, TimeSensitive, 1400), send(200, 0, 0, Reliable, 4344), send(201, 0, 1, Unreliable, 1448)], LwCfg { pwin: 4, fwin: 8, rx_alloc: [4344, 4344], ..LwCfg::small() }),
+        ("partial-then-idle-then-full-w4096", vec![send(0, 0, 0, Unreliable, 4000), send(1, 0, 0, Unreliable, 2000), send(250, 0, 0, Reliable, 5792), send(251, 0, 1, Reliable, 1)], LwCfg { pwin: 4096, fwin: 4096, rx_alloc: [5792, 5792], ..LwCfg::small() }),
         ("both-directions", (0..8).map(|i| send(i / 4, i % 2, 0, if i % 3 == 0 { Reliable } else { Unreliable }, 1000 + 300 * i)).collect(), LwCfg { pwin: 4, fwin: 8, rx_alloc: [3000, 5000], ..LwCfg::small() }),
     ];
     for (name, ops, cfg) in scripts {
